@@ -20,9 +20,11 @@ func init() {
 			"(R4) a cancel message cannot crash the process: a subscription feed is closed only by Cancel, under the write lock, only when the subscription was still registered, at most once (shared with C14-R2); (R3) the accessor returned by Record.GetAccessor (nil for non-JSON wrappers) is nil-checked before every use. " +
 			"(R5) every constant-bound index/slice in the repo functions statically reachable from DatabaseAPI.Handle is dominated by a length test implying the bound (or a named idiom/invariant). " +
 			"(R6) lock pairing over the functions statically reachable from api.(*DatabaseAPI).Handle, api.MarshalRecord: " + lockRuleText + ". " +
+			"(R7) Record.Marshal yields no data for a deleted record before any other rejection (processSub marshals before it looks at the deleted flag, so the del notification depends on it; shared with C08-R7). " +
 			"NOT decided: absence of other panics for arbitrary messages, wedging, content preservation of written records.",
 		Rules: []ruleFn{c13R1, c13R2, c13R3, func(c *Ctx, r *Report) { subscriptionFeedRule(c, r, "C13-R4") }, c13R5,
-			lockRuleFor("C13-R6", 15, []string{}, []string{"api.(*DatabaseAPI).Handle", "api.MarshalRecord"}, map[string]string{})},
+			lockRuleFor("C13-R6", 15, []string{}, []string{"api.(*DatabaseAPI).Handle", "api.MarshalRecord"}, map[string]string{}),
+			func(c *Ctx, r *Report) { deletedFirstRule(c, r, "C13-R7") }},
 	})
 }
 
